@@ -52,6 +52,19 @@ Theorem C13_live_row : forall children fuel h n y v e,
             (e_started e = true -> ~ In (Some o) (e_seen e)).
 Proof. exact live_row_correct. Qed.
 
+(* ... and the end condition: h1 brings the process to a point where evaluation n has not begun; whatever happens afterwards
+   (h2; no graph re-creation), when evaluation n reports the end, every instance that was created before it began, still exists
+   and is of the variable's type or of a subclass has been handed out by it.  With C13_live_row: the model meets the Spec's
+   conditions for every row and for the end of every row-by-row evaluation *)
+Theorem C13_live_end : forall children fuel h1 h2 n y e0 e,
+  adm_run children fuel init (h1 ++ h2) = true -> no_clear (h1 ++ h2) = true ->
+  nth_error (evals (fst (run children fuel init h1))) n = Some (Some e0) -> e_started e0 = false ->
+  nth_error (evals (fst (run children fuel init (h1 ++ h2)))) n = Some (Some e) ->
+  snd (step children fuel (fst (run children fuel init (h1 ++ h2))) (NextV n y)) = OInst [] ->
+  forall x, In x (live (fst (run children fuel init (h1 ++ h2)))) -> o_id x < next (fst (run children fuel init h1)) ->
+            le_b children fuel (o_cls x) (e_T e) = true -> In (Some (o_id x)) (e_seen e).
+Proof. exact live_end_complete. Qed.
+
 (* "existing" = "referenced by the program", after any history, whenever no live iterator holds a row *)
 Theorem C13_existing_is_referenced : forall children fuel h o,
   (forall x, pinned (evals (fst (run children fuel init h))) x = false) ->
@@ -91,6 +104,7 @@ Print Assumptions C13_subclasses_unbounded.
 Print Assumptions C13_query.
 Print Assumptions C13_row.
 Print Assumptions C13_live_row.
+Print Assumptions C13_live_end.
 Print Assumptions C13_existing_is_referenced.
 Print Assumptions C13_model_is_spec_on_F.
 Print Assumptions C13_refuted_clear.
